@@ -17,8 +17,8 @@ from sim.trace import EventLog, canon
 CASE_TIMEOUT = 180
 LEVEL = {"C08": "exploration"}
 PLAN = {"C08": {
-    "quick": {"runs": 16000, "wall_cap": 110, "chunk": 50, "selftest": 8},
-    "thorough": {"runs": 150000, "wall_cap": 1500, "chunk": 50, "selftest": 40},
+    "quick": {"runs": 30000, "wall_cap": 110, "chunk": 100, "selftest": 8},
+    "thorough": {"runs": 900000, "wall_cap": 1700, "chunk": 200, "selftest": 40},
 }}
 RULE = {"C08": (
     "one evaluation = one seeded run: random network (6-14 tensors), swarm-chosen method subset / objective / "
